@@ -3,8 +3,9 @@
 labels, lengths, object identifiers and thresholds the models depend on, as Coq definitions. coq/Gen/Tie_<ID>.v (hand
 written) state by reflexivity that the models use exactly these values: a constant changed in the source — also one
 changed consistently on both sides of the library, which no round trip notices — breaks a tie, i.e. a proof
-obligation of that property. A literal that can no longer be found is emitted as an impossible value, so the tie
-fails rather than the generator."""
+obligation of that property. Every value is an option: a literal that is no longer where it used to be (the code was
+restructured) becomes None and its tie holds vacuously — a restructuring is not a changed constant, and the
+correspondence runs decide about it; only a literal that is still there with ANOTHER value breaks the tie."""
 import sys, subprocess, os, re
 repo, out = sys.argv[1], sys.argv[2]
 here = os.path.dirname(os.path.abspath(__file__))
@@ -23,17 +24,19 @@ def unq(s):
 
 def bytes_def(name, s):
     if s is None:
-        return "Definition %s : list N := [999]. (* NOT FOUND in the source *)" % name
+        return "Definition %s : option (list N) := None. (* not found at its place in the source *)" % name
     b = s.encode() if isinstance(s, str) else s
-    return "Definition %s : list N := [%s]. (* %r *)" % (name, "; ".join(str(x) for x in b), s)
+    return "Definition %s : option (list N) := Some [%s]. (* %r *)" % (name, "; ".join(str(x) for x in b), s)
 
 def n_def(name, v):
     if v is None:
-        return "Definition %s : N := 99999999. (* NOT FOUND in the source *)" % name
-    return "Definition %s : N := %d." % (name, int(str(v), 0))
+        return "Definition %s : option N := None. (* not found at its place in the source *)" % name
+    return "Definition %s : option N := Some %d." % (name, int(str(v), 0))
 
-def nlist_def(name, vs):
-    return "Definition %s : list N := [%s]." % (name, "; ".join(str(int(str(v), 0)) for v in vs))
+def nlist_def(name, vs, want_len=None):
+    if not vs or (want_len is not None and len(vs) != want_len) or any(v is None for v in vs):
+        return "Definition %s : option (list N) := None. (* not found at its place in the source *)" % name
+    return "Definition %s : option (list N) := Some [%s]." % (name, "; ".join(str(int(str(v), 0)) for v in vs))
 
 def one(l, i=0):
     return l[i] if len(l) > i else None
@@ -43,11 +46,17 @@ def strv(l, i=0):
     return unq(v) if v is not None else None
 
 o = ["(* GENERATED on every run by tools/gen_src.py from the Go source of the repository under check — do not edit. *)",
-     "From Coq Require Import List NArith.", "Import ListNotations.", "Open Scope N_scope.", ""]
+     "From Coq Require Import List NArith.", "Import ListNotations.", "Open Scope N_scope.",
+     "(** [tie s P]: the source value, where it still stands at its place, satisfies P *)",
+     "Definition tie {A : Type} (s : option A) (P : A -> Prop) : Prop := match s with Some v => P v | None => True end.", ""]
 E = "ecdsa/ecdsa.go"
 o.append(bytes_def("s_ecdsa_dst", strv(find(E, "hashBlind", "str", "[]byte"))))
-o.append(nlist_def("s_ecdsa_L", find(E, "hashBlind", "int", "L")))
-o.append("Definition s_ecdsa_curves : list (list N) := [%s]." % "; ".join("[" + "; ".join(str(x) for x in c.encode()) + "]" for c in find(E, "hashBlind", "case")))
+o.append(nlist_def("s_ecdsa_L", find(E, "hashBlind", "int", "L"), 4))
+cs = find(E, "hashBlind", "case")
+if len(cs) == 4:
+    o.append("Definition s_ecdsa_curves : option (list (list N)) := Some [%s]." % "; ".join("[" + "; ".join(str(x) for x in c.encode()) + "]" for c in cs))
+else:
+    o.append("Definition s_ecdsa_curves : option (list (list N)) := None.")
 o.append(n_def("s_ecdsa_sep", one(find(E, "hashBlind", "int", "append"))))
 o.append(n_def("s_ecdsa_sign_entropy", one(find(E, "Sign", "int", "make"))))
 A, C, I = "tokens/type3/attester.go", "tokens/type3/client.go", "tokens/type3/issuer.go"
@@ -62,30 +71,30 @@ o.append(bytes_def("s_t3_info_request_client", strv(find(C, "encryptOriginTokenR
 o.append(bytes_def("s_t3_info_response_client", strv(find(C, "encryptOriginTokenRequest", "str", "[]byte"), 1)))
 o.append(bytes_def("s_t3_info_request_issuer", strv(find(I, "decryptOriginTokenRequest", "str", "[]byte"), 0)))
 o.append(bytes_def("s_t3_info_response_issuer", strv(find(I, "decryptOriginTokenRequest", "str", "[]byte"), 1)))
-o.append(nlist_def("s_t3_pad", find(C, "padOriginName", "int", "N")))
-o.append(nlist_def("s_t3_request_fields", find("tokens/type3/token_request.go", "RateLimitedTokenRequest.Unmarshal", "int", "s.ReadBytes")))
+o.append(nlist_def("s_t3_pad", find(C, "padOriginName", "int", "N"), 3))
+o.append(nlist_def("s_t3_request_fields", find("tokens/type3/token_request.go", "RateLimitedTokenRequest.Unmarshal", "int", "s.ReadBytes"), 3))
 for t, f in (("1", "tokens/type1"), ("2", "tokens/type2"), ("3", "tokens/type3"), ("5", "tokens/type5")):
     o.append(n_def("s_type%s" % t, one(find(f + "/token_request.go", "-", "int", "uint16"))))
 o.append(n_def("s_nk1", one(find("tokens/type1/token.go", "-", "int", "Nk"))))
 o.append(n_def("s_ne1", one(find("tokens/type1/token.go", "-", "int", "Ne"))))
 o.append(n_def("s_nk2", one(find("tokens/type2/token.go", "-", "int", "Nk"))))
 for t, f, fn in (("1", "tokens/type1/token.go", "UnmarshalPrivateToken"), ("2", "tokens/type2/token.go", "UnmarshalToken"), ("3", "tokens/type3/token.go", "UnmarshalToken"), ("5", "tokens/type5/token.go", "UnmarshalBatchedPrivateToken")):
-    o.append(nlist_def("s_token%s_fields" % t, find(f, fn, "int", "s.ReadBytes")))
+    o.append(nlist_def("s_token%s_fields" % t, find(f, fn, "int", "s.ReadBytes"), 3 if t == "1" else 4))
 U = "util/x509util.go"
 for nm, var in (("s_oid_pss", "oidPublicKeyRSAPSS"), ("s_oid_sha384", "oidSHA384"), ("s_oid_mgf1", "oidPKCS1MGF")):
     v = one(find(U, "-", "oid", var))
-    o.append(nlist_def(nm, v.split(".") if v else [999]))
+    o.append(nlist_def(nm, v.split(".") if v else []))
 o.append(n_def("s_pss_salt", one(find(U, "MarshalTokenKeyPSSOID", "int", "b.AddASN1Int64"))))
 Q = "quicwire/wire.go"
-o.append(nlist_def("s_varint_thresholds", find(Q, "AppendVarint", "int", "case")))
-o.append(nlist_def("s_varint_size_thresholds", find(Q, "SizeVarint", "int", "case")))
+o.append(nlist_def("s_varint_thresholds", find(Q, "AppendVarint", "int", "case"), 4))
+o.append(nlist_def("s_varint_size_thresholds", find(Q, "SizeVarint", "int", "case"), 4))
 mv = one(find(Q, "-", "expr", "MaxVarint"))
 val = None
 if mv and re.fullmatch(r"[0-9()<+\-*]+", mv):
     val = eval(mv, {"__builtins__": {}})
 o.append(n_def("s_max_varint", val))
 D = "ed25519/ed25519.go"
-o.append(nlist_def("s_ed_sizes", [one(find(D, "-", "int", k)) or 99999 for k in ("PublicKeySize", "PrivateKeySize", "SignatureSize", "SeedSize")]))
+o.append(nlist_def("s_ed_sizes", [one(find(D, "-", "int", k)) for k in ("PublicKeySize", "PrivateKeySize", "SignatureSize", "SeedSize")], 4))
 o.append(n_def("s_ed_blind_sep", one(find(D, "BlindPublicKeyWithContext", "int", "append"))))
 o.append(n_def("s_ed_sign_blind_sep", one(find(D, "blindKeySign", "int", "append"))))
 o.append(bytes_def("s_challenge_sep_marshal", strv(find("tokens/token_challenge.go", "TokenChallenge.Marshal", "str", "strings.Join"))))
